@@ -169,6 +169,54 @@ class SO3Spec(Spec):
         return O.random_axes(rng, N) * angle_mix(rng, N, hi)[:, None]
 
 
+class EulerSeqSpec(Spec):
+    """SO3EulerLieGroup with an arbitrary type/sequence (public class).  The library offers to_Matrix, identity and Ad
+    for these; product/inverse/exp/log need from_Matrix, which raises NotImplementedError except for body-fixed 3-2-1."""
+    na = 3
+    md = 3
+    n = 3
+    has_rotation = True
+
+    def __init__(self, etype, seq):
+        self.etype = etype
+        self.seq = seq
+        self.name = "SO3Euler[%s,%s]" % (etype, "".join(seq))
+        self._lib = None
+
+    def lib(self):
+        if self._lib is None:
+            from cyecca.lie.group_so3 import SO3EulerLieGroup, EulerType, Axis
+            self._lib = SO3EulerLieGroup(euler_type=getattr(EulerType, self.etype), sequence=[getattr(Axis, a) for a in self.seq])
+        return self._lib
+
+    def mat(self, P):
+        P = np.asarray(P, dtype=float)
+        R = {"x": O.Rx, "y": O.Ry, "z": O.Rz}
+        M = np.tile(np.eye(3), (len(P), 1, 1))
+        for k, a in enumerate(self.seq):
+            Rk = R[a](P[:, k])
+            M = M @ Rk if self.etype == "body_fixed" else Rk @ M
+        return M
+
+    rot = mat
+
+    def hat(self, X):
+        return O.hat3(X)
+
+    def alg_angle(self, X):
+        return np.linalg.norm(X, axis=-1)
+
+    def rand(self, rng, N, hi=PI, **kw):
+        return rng.uniform(-PI, PI, (N, 3))
+
+    def alg_rand(self, rng, N, hi=2 * PI - 0.05, **kw):
+        return O.random_axes(rng, N) * angle_mix(rng, N, hi)[:, None]
+
+
+def extra_euler_specs():
+    return [EulerSeqSpec("space_fixed", ("x", "y", "z")), EulerSeqSpec("body_fixed", ("x", "z", "y")), EulerSeqSpec("space_fixed", ("z", "y", "x"))]
+
+
 # --------------------------------------------------------------------------- SE(3), SE_2(3)
 class SE3Spec(Spec):
     na = 6
